@@ -30,6 +30,13 @@ class ConstraintDistScopeModel(ConstraintInlineScopeModel):
     def next_target_range(self, randstate : RandState) -> int:
         """Select the next target range from the weight list"""
 
+        if self.total_weight < 1:
+            # Every weight is zero: no value is allowed, which the constraints
+            # built for this dist already express (the solve fails). There is
+            # no range to choose
+            self.target_range = 0
+            return self.target_range
+
         seed_v = randstate.rng.randint(1, self.total_weight)
 
         # Find the first range
